@@ -1,5 +1,6 @@
 import Driver.Core
 import Driver.GenStmt
+import Driver.TabOracle
 namespace Drv
 open Lean IGVerif
 
@@ -90,6 +91,7 @@ def genC10Cases (tier : String) (seed : Nat) : Array Case := Id.run do
       let (s, r1) := (if i % 2 = 0 then genNested { depth := 2, pairs := true, propCombos := true } else genSupC02 2) rng
       let (h, r2) := hollowS s r1
       rng := r2
+      if rowBound s > 512 then continue
       out := out.push { id := s!"c10-h{i}", op := "conv", args := convArgs (String.ofList (renderS h)) v, tag := "hollowed-statement" }
     else if kind = 0 then
       let (t, r1) := genTokenString (if i % 8 = 0 then 120 else 30) rng
@@ -98,6 +100,7 @@ def genC10Cases (tier : String) (seed : Nat) : Array Case := Id.run do
     else if kind = 1 then
       let (s, r1) := (if i % 3 = 0 then genNested { depth := 2, pairs := true } else genSupC02 2) rng
       rng := r1
+      if rowBound s > 512 then continue
       let base := String.ofList (renderS s)
       let (m, r2) := mutate base prev rng
       rng := r2
@@ -106,11 +109,13 @@ def genC10Cases (tier : String) (seed : Nat) : Array Case := Id.run do
     else if kind = 2 then
       let (s, r1) := genNested { depth := 2, pairs := true, propCombos := true } rng
       rng := r1
+      if rowBound s > 512 then continue
       out := out.push { id := s!"c10-g{i}", op := "conv", args := convArgs (String.ofList (renderS s)) v, tag := "grammar-statement" }
     else
       -- two mutations
       let (s, r1) := genC01 { suffixes := true, maxDepth := 3 } rng
       rng := r1
+      if rowBound s > 512 then continue
       let base := String.ofList (renderS s)
       let (m1, r2) := mutate base prev rng
       let (m2, r3) := mutate m1 base r2
@@ -137,11 +142,28 @@ def genC12Cases (tier : String) (seed : Nat) : Array Case := Id.run do
       | 2 => genNested { depth := 2, pairs := true, propCombos := true }
       | _ => genC01 { suffixes := true, maxDepth := 3 }) rng
     rng := r1
+    let (s, kf) :=
+      if i % 25 = 24 then
+        -- open finding: several combinations of one component (wAND) as operand of another
+        -- combination, dynamic output
+        let s2 := Id.run do
+          let mut best : Stmt := s
+          for k in [0:40] do
+            let (c, _) := genC01 { suffixes := false, maxDepth := 3, maxComps := 2, nestedMulti := true } ⟨UInt64.ofNat (seed * 91 + i * 41 + k)⟩
+            if hasNestedMulti c && rowBound c ≤ 64 then
+              best := c
+              break
+          pure best
+        (s2, if hasNestedMulti s2 then "C12-wand-inside-combination-dynamic-output" else "")
+      else (s, "")
+    if rowBound s > 512 then continue
     let text := String.ofList (renderS s)
     let (v, r2) := below 128 rng
     rng := r2
+    let v := if kf ≠ "" then 28 + (v / 32) * 32 else v     -- dynamic output on
     let a := (convArgs text v).setObjVal! "reps" (5 : Nat) |>.setObjVal! "fresh3" (i % 5 == 0 : Bool)
-    out := out.push { id := s!"c12-{i}", op := "conv", args := a, tag := if i % 5 = 0 then "5-reps+3-processes" else "5-reps" }
+    out := out.push { id := s!"c12-{i}", op := "conv", args := a, tag := if kf ≠ "" then "wAND-inside-combination" else if i % 5 = 0 then "5-reps+3-processes" else "5-reps",
+                      note := Json.mkObj [("kf", (kf : Json))] }
   pure out
 
 def judgeC12 (_c : Case) (o : ObsLine) : Verdict :=
